@@ -105,6 +105,34 @@ func runC01(c *Ctx) {
 				return flag, false
 			}, isDropNeg, func(flag int) bool { return flag == 1 }); found {
 				okA = false
+				// `if cond && Drop(..) { return }`: Drop is the last conjunct of
+				// an if whose body forwards nothing; on the false edge Drop was
+				// either not called or refused
+				for n := p.Parent(wr.File, dropc); n != nil; n = p.Parent(wr.File, n) {
+					ifs, isIf := n.(*ast.IfStmt)
+					if !isIf {
+						if _, isStmt := n.(ast.Stmt); isStmt {
+							break
+						}
+						continue
+					}
+					cj := conjuncts(ifs.Cond)
+					if len(cj) > 0 && unparen(cj[len(cj)-1]) == ast.Expr(dropc) && ifs.Else == nil {
+						noWrite := true
+						ast.Inspect(ifs.Body, func(m ast.Node) bool {
+							for _, w := range writes {
+								if m == ast.Node(w) {
+									noWrite = false
+								}
+							}
+							return true
+						})
+						if _, endsRet := ifs.Body.List[len(ifs.Body.List)-1].(*ast.ReturnStmt); endsRet && noWrite {
+							okA = true
+						}
+					}
+					break
+				}
 			}
 			for _, w := range writes {
 				if reach, _ := ff.ReachableNotRefuting(w, factsConj(mapFail)); reach {
@@ -145,6 +173,16 @@ func runC01(c *Ctx) {
 			c.Check(okArgs, "R1.4", "Drop and Map are asked about the packet's own seqno", mapc.Pos(), "flags.Seqno", "the map is consulted with another number than the packet's")
 			// fast path
 			fast := writes[0]
+			for _, w := range writes {
+				// the unrewritten path is the one that writes Write's own parameter
+				if id, ok := unparen(w.Args[0]).(*ast.Ident); ok {
+					for _, po := range wr.params(wr.Pkg.TypesInfo) {
+						if po != nil && wr.Pkg.TypesInfo.Uses[id] == po {
+							fast = w
+						}
+					}
+				}
+			}
 			stF, _ := ff.At(fast)
 			okFast := false
 			if stF != nil {
@@ -385,19 +423,11 @@ func pmMappingRules(c *Ctx, rule string) {
 			seqP := ssa.Value(fn.Params[1])
 			var cursor ssa.Value
 			single := true
+			fEnt := p.Field("packetmap", "Map", "entries")
 			for _, b := range fn.Blocks {
 				for _, ins := range b.Instrs {
-					fa, ok := ins.(*ssa.FieldAddr)
-					if !ok {
-						continue
-					}
-					f := fieldOf(fa)
-					if f != eFirst && f != eDelta && f != eCount && f != p.Field("packetmap", "entry", "pidDelta") {
-						continue
-					}
-					ia, ok := fa.X.(*ssa.IndexAddr)
-					if !ok {
-						single = false
+					ia, ok := ins.(*ssa.IndexAddr)
+					if !ok || !isLoadOfField(ia.X, fEnt) {
 						continue
 					}
 					if cursor == nil {
@@ -455,23 +485,33 @@ func pmMappingRules(c *Ctx, rule string) {
 				if bo, ok := strip(rvv[1]).(*ssa.BinOp); !ok || !(isLoadOfField(strip(bo.Y), eDelta) || isLoadOfField(strip(bo.X), eDelta)) {
 					continue
 				}
-				// the successful interval return: reachable only through both tests
-				if len(b.Preds) != 1 {
-					continue
+				// the successful interval return: reachable only through both
+				// tests, whatever their orientation and polarity
+				lower, upper := false, false
+				for x := b; x != nil; x = x.Idom() {
+					if len(x.Preds) != 1 {
+						continue
+					}
+					pr := x.Preds[0]
+					iff, ok := pr.Instrs[len(pr.Instrs)-1].(*ssa.If)
+					if !ok {
+						continue
+					}
+					xv, op, okc := cmpTest(iff.Cond)
+					if !okc {
+						continue
+					}
+					if pr.Succs[0] != x {
+						op = negateOp(op)
+					}
+					if op == token.GEQ && isF(xv) {
+						lower = true
+					}
+					if op == token.LSS && isFplusCount(xv) {
+						upper = true
+					}
 				}
-				p2 := b.Preds[0]
-				if2, ok := p2.Instrs[len(p2.Instrs)-1].(*ssa.If)
-				if !ok || p2.Succs[0] != b || len(p2.Preds) != 1 {
-					continue
-				}
-				p1 := p2.Preds[0]
-				if1, ok := p1.Instrs[len(p1.Instrs)-1].(*ssa.If)
-				if !ok || p1.Succs[0] != p2 {
-					continue
-				}
-				x2, op2, ok2 := cmpTest(if2.Cond)
-				x1, op1, ok1 := cmpTest(if1.Cond)
-				if ok1 && ok2 && op1 == token.GEQ && isF(x1) && op2 == token.LSS && isFplusCount(x2) {
+				if lower && upper {
 					guarded = true
 				}
 			}
@@ -501,24 +541,52 @@ func pmMappingRules(c *Ctx, rule string) {
 		// every branch that hands out a number for a new packet (records a
 		// mapping, or resets) advances next in the same block
 		need, have := 1, 0
-		for _, b := range smp.Blocks {
-			pending := false
-			for _, ins := range b.Instrs {
-				if call, ok := ins.(*ssa.Call); ok && call.Call.StaticCallee() != nil {
-					if n := call.Call.StaticCallee().Name(); n == "addMapping" || n == "reset" {
-						pending = true
-						need++
-					}
-				}
-				if st, ok := ins.(*ssa.Store); ok && pending {
-					if fa, ok := st.Addr.(*ssa.FieldAddr); ok && fieldOf(fa) == fNext {
-						pending = false
-						have++
-					}
-				}
+		storesNext := func(ins ssa.Instruction) bool {
+			st, ok := ins.(*ssa.Store)
+			if !ok {
+				return false
 			}
-			if pending {
-				okNext = false
+			fa, ok := st.Addr.(*ssa.FieldAddr)
+			return ok && fieldOf(fa) == fNext
+		}
+		for _, b := range smp.Blocks {
+			for i, ins := range b.Instrs {
+				call, ok := ins.(*ssa.Call)
+				if !ok || call.Call.StaticCallee() == nil {
+					continue
+				}
+				if n := call.Call.StaticCallee().Name(); n != "addMapping" && n != "reset" {
+					continue
+				}
+				need++
+				// every path from here to a return stores next
+				seen := map[*ssa.BasicBlock]bool{}
+				var escapes func(bb *ssa.BasicBlock, from int) bool
+				escapes = func(bb *ssa.BasicBlock, from int) bool {
+					for j := from; j < len(bb.Instrs); j++ {
+						if storesNext(bb.Instrs[j]) {
+							return false
+						}
+						if _, isRet := bb.Instrs[j].(*ssa.Return); isRet {
+							return true
+						}
+					}
+					for _, s := range bb.Succs {
+						if seen[s] {
+							continue
+						}
+						seen[s] = true
+						if escapes(s, 0) {
+							return true
+						}
+					}
+					return false
+				}
+				if escapes(b, i+1) {
+					okNext = false
+				} else {
+					have++
+				}
 			}
 		}
 		// the branch for "nothing ever dropped": a store under the in-order test
@@ -528,18 +596,35 @@ func pmMappingRules(c *Ctx, rule string) {
 				break
 			}
 		}
-		c.Check(okNext && have >= need && need >= 4, rule, "Map: every in-order packet advances next to seqno + 1", mp.Pos(), fmt.Sprintf("%d stores next = seqno + 1, %d branches that need one", nst, need), "a branch of Map hands out a number for a new packet without advancing next to seqno+1 (or advances it to something else)")
+		c.Check(okNext && have >= need && need >= 3, rule, "Map: every in-order packet advances next to seqno + 1", mp.Pos(), fmt.Sprintf("%d stores next = seqno + 1, %d branches that need one", nst, need), "a branch of Map hands out a number for a new packet without advancing next to seqno+1 (or advances it to something else)")
 		// the mapping recorded for an in-order packet is the one returned
 		am := p.Func("packetmap", "", "addMapping")
 		if am == nil {
-			c.Unknown(rule, "addMapping", mp.Pos(), "packetmap.addMapping not found")
-		} else {
+			am = p.Func("packetmap", "Map", "addMapping")
+		}
+		inlinedAM := false
+		if am == nil {
+			// the recording code lives in Map itself (inlined): same rules on Map's own body
+			am, inlinedAM = mp, true
+		}
+		{
 			sam := p.SSAFunc(am.Obj)
-			seqA, deltaA := ssa.Value(sam.Params[1]), ssa.Value(sam.Params[2])
+			var seqA, deltaA ssa.Value
+			for _, q := range sam.Params {
+				switch q.Name() {
+				case "seqno":
+					seqA = q
+				case "delta":
+					deltaA = q
+				}
+			}
+			if seqA == nil && len(sam.Params) > 1 {
+				seqA = sam.Params[1]
+			}
 			okRec, nrec := true, 0
 			for _, st := range storesToField(sam, eDelta) {
 				nrec++
-				if st.Val != deltaA {
+				if !(deltaA != nil && st.Val == deltaA) && !(inlinedAM && isLoadOfField(st.Val, fDelta)) {
 					okRec = false
 				}
 			}
@@ -583,6 +668,9 @@ func pmMappingRules(c *Ctx, rule string) {
 					// and the value returned after it is seqno + the same delta
 				}
 			}
+			if inlinedAM {
+				okCall = okRec // the delta recorded is m.delta itself, the one returned
+			}
 			c.Check(okCall, rule, "Map records the mapping it returns", mp.Pos(), "addMapping(m, seqno, m.delta, ...) precedes return seqno + m.delta", "the mapping recorded for retransmissions differs from the number handed out")
 		}
 		// the interval created by the first Drop is the identity on the past
@@ -613,6 +701,9 @@ func pmMappingRules(c *Ctx, rule string) {
 				if k, ok := st.Val.(*ssa.Const); ok {
 					countK = k.Int64()
 				}
+			}
+			if len(storesToField(sdr, eDelta)) == 0 {
+				ninit++ // the zero value
 			}
 			c.Check(okInit && ninit == 3 && firstK == countK, rule, "the first Drop creates the identity interval ending just before seqno", dr.Pos(), fmt.Sprintf("entry{first: seqno-%d, count: %d, delta: 0}", firstK, countK), "the interval created by the first drop does not map the already forwarded packets to themselves up to seqno-1")
 		}
